@@ -4,6 +4,7 @@
 import SV.Immunity.Proofs
 import SV.GenProofs.Immunity
 import SV.Immunity.CacheProofs
+import SV.Immunity.FifoSpec
 namespace SV.Props.C12
 open SV SV.Immunity
 
@@ -77,5 +78,27 @@ theorem cache_refusal_changes_nothing (c : Cache) (k p : Bytes) (s : Int) (c' : 
     (h : c.hasOrAdd Variant.current k p s = (c', false, false)) : c' = c := refused_add_changes_nothing c k p s c' h
 theorem cache_never_overwrites (c : Cache) (k p : Bytes) (s : Int) (hk : (c.get k).isSome = true) :
     c.hasOrAdd Variant.current k p s = (c, true, false) := hasOrAdd_present c k p s hk
+
+/-! ### one chunk IS a FIFO queue with batch eviction: history-level refinement to an independent reference (SV.Immunity.FifoSpec:
+    a queue of (key, payload, size) oldest first + a set of immune keys, no per-item flags) -/
+
+theorem single_chunk_refines_fifo_queue (cfg : ChunkCfg) (ops : List COp)
+    (hw : ∀ op ∈ ops, (match op with | .add _ _ s => 0 ≤ s | _ => True)) :
+    let c := ops.foldl (Chunk.apply cfg) Chunk.empty
+    let q := Q.run cfg Q.empty ops
+    c.toQ = q ∧
+    c.items.map (·.key) = q.queue.map (·.1) ∧
+    c.items.map (·.payload) = q.queue.map (·.2.1) ∧
+    c.items.map (·.size) = q.queue.map (·.2.2) ∧
+    c.numBytes = q.bytes ∧
+    c.immuneKeys = q.immune ∧
+    Chunk.trace cfg Chunk.empty ops = Q.trace cfg Q.empty ops := chunk_run_refines_queue cfg ops hw
+/-- the reference refuses an add exactly when the key is new, the queue is full and nothing is evictable (every resident immune,
+    or batch size 0); a refused add changes nothing -/
+theorem fifo_refusal_iff (cfg : ChunkCfg) (q : Q) (k p : Bytes) (size : Int) :
+    ((q.add cfg k p size).2 = (false, false) ↔
+      (q.has k = false ∧ q.full cfg = true ∧
+        (cfg.numToEvict = 0 ∨ ∀ e ∈ q.queue, q.immune.contains e.1 = true))) ∧
+    ((q.add cfg k p size).2 = (false, false) → (q.add cfg k p size).1 = q) := q_refusal_iff cfg q k p size
 
 end SV.Props.C12
